@@ -9,12 +9,18 @@
 #include <cstdint>
 #include <string>
 #ifdef THR_NOOP
+#  ifdef THR_EMBEDDER_TLS   // the embedder-provided thread-local-storage configuration of the bundled backend
+#    define RLBOX_EMBEDDER_PROVIDES_TLS_STATIC_VARIABLES
+#  endif
 #  define RLBOX_USE_EXCEPTIONS
 #  define RLBOX_SINGLE_THREADED_INVOCATIONS
 #  define RLBOX_USE_STATIC_CALLS() rlbox_noop_sandbox_lookup_symbol
 #  include "rlbox_noop_sandbox.hpp"
 #  include "rlbox.hpp"
 #  include "common.hpp"
+#  ifdef THR_EMBEDDER_TLS
+RLBOX_NOOP_SANDBOX_STATIC_VARIABLES();
+#  endif
 using SbxT = rlbox::rlbox_noop_sandbox;
 using GLong = long;
 #else
